@@ -703,6 +703,11 @@ func runThrottle(req string) string {
 		return "bad-request"
 	}
 	period := time.Duration(dur) / time.Duration(count)
+	// t0 is taken before the ticker exists, `last` inside the handler (≥ the last start).  n starts consume n
+	// distinct ticks and tick i is never delivered before creation + i·period, so last - t0 ≥ n·period whatever
+	// the load of the machine, however late the runtime fires the timer and however the callers (one Throttle is
+	// shared by several handlers) interleave.  Judged with two periods to spare: (n-2)·period.
+	t0 := time.Now()
 	th := middleware.NewThrottle(count, time.Duration(dur))
 	var mu sync.Mutex
 	starts := 0
@@ -717,10 +722,6 @@ func runThrottle(req string) string {
 		mu.Unlock()
 		return nil, nil
 	})
-	// t0 is taken before the first call (≤ the first start), `last` inside the handler (≥ the last start):
-	// last - t0 ≥ start_n - start_1 ≥ (n-2)·period whatever the load of the machine and however the
-	// callers (one Throttle is shared by several handlers) interleave.
-	t0 := time.Now()
 	var wg sync.WaitGroup
 	for c := 0; c < callers; c++ {
 		k := n / callers
